@@ -61,6 +61,26 @@ def run(ctx):
                         ctx.fail("awkward:" + site, f"awkward .{syn} / .{geo} / object disagree", {"points": pts})
                     if not same(getattr(rec, syn), want[0]):
                         ctx.fail("awkward-record:" + site, f"record .{syn} = {getattr(rec, syn)}, object {want[0]}", {"points": pts[:1]})
+                # momentum-named conversions equal their geometric counterparts, keyword for keyword
+                conv = {"to_pxpy": ("to_xy", {}), "to_ptphi": ("to_rhophi", {})}
+                for azm, azg in (("pxpy", "xy"), ("ptphi", "rhophi")):
+                    for lm, lgn in (("pz", "z"), ("theta", "theta"), ("eta", "eta")):
+                        conv[f"to_{azm}{lm}"] = (f"to_{azg}{lgn}", {lm: lgn})
+                        for tmn, tg in (("energy", "t"), ("mass", "tau")):
+                            conv[f"to_{azm}{lm}{tmn}"] = (f"to_{azg}{lgn}{tg}", {lm: lgn, tmn: tg})
+                for mm, (gm, kwmap) in conv.items():
+                    for use_kw in (False, True):
+                        vals = {"pz": 0.75, "theta": 1.25, "eta": -0.6, "energy": 12.5, "mass": 3.5}
+                        kw_m = {k_: vals[k_] for k_ in kwmap} if use_kw else {}
+                        kw_g = {kwmap[k_]: v for k_, v in kw_m.items()}
+                        n += 1
+                        for label, v in (("object", objs[0]), ("numpy", arr), ("awkward", aw)):
+                            a_, b_ = getattr(v, mm)(**kw_m), getattr(v, gm)(**kw_g)
+                            fa = [f for f in ("x", "y", "rho", "phi", "z", "theta", "eta", "t", "tau") if hasattr(a_, f)]
+                            va = [numpy.asarray(ak.to_numpy(getattr(a_, f)) if label == "awkward" else getattr(a_, f), dtype=float) for f in fa]
+                            vb = [numpy.asarray(ak.to_numpy(getattr(b_, f)) if label == "awkward" else getattr(b_, f), dtype=float) for f in fa]
+                            if type(a_) is not type(b_) or not all(same(p, q) for p, q in zip(va, vb)):
+                                ctx.fail(f"{label}:{dim}D:{sysn}:{mm}", f"{mm}({kw_m}) differs from {gm}({kw_g})", {"point": pts[0], "kw": kw_m})
                 # indexing / assignment through a synonym (NumPy): the stored column
                 for k, mk_ in zip(names, mnames):
                     n += 1
